@@ -1,0 +1,122 @@
+//! Verification hooks. Only compiled with `--cfg nucleo_verif`; never part of a normal build.
+//!
+//! Two kinds of hooks: *points* (named program points at which a controlled scheduler may
+//! suspend the calling thread) and *choices* (environment answers owned by the harness, e.g.
+//! the order in which pool threads report in-flight items). Without an installed hook every
+//! point is a no-op and every choice answers 0, so a hooks-on build behaves like a normal one.
+//!
+//! The module also exposes a small public facade over crate-private code (`boxcar::Vec`,
+//! `par_sort::par_quicksort`) so that a harness can drive it directly.
+
+use std::sync::atomic::AtomicBool;
+use std::sync::{Arc, RwLock};
+
+use crate::{boxcar, Item, Nucleo, Utf32String};
+
+pub struct Hooks {
+    /// called at every instrumented program point with a stable name and one datum
+    pub point: Box<dyn Fn(&'static str, u64) + Send + Sync>,
+    /// called for every environment choice with the number of alternatives; must return `< n`
+    pub choice: Box<dyn Fn(&'static str, usize) -> usize + Send + Sync>,
+}
+
+static HOOKS: RwLock<Option<Arc<Hooks>>> = RwLock::new(None);
+
+pub fn set_hooks(hooks: Option<Arc<Hooks>>) {
+    *HOOKS.write().unwrap() = hooks;
+}
+
+#[inline]
+pub(crate) fn point(id: &'static str, data: u64) {
+    let hooks = HOOKS.read().unwrap().clone();
+    if let Some(hooks) = hooks {
+        (hooks.point)(id, data)
+    }
+}
+
+#[inline]
+pub(crate) fn choice(id: &'static str, n: usize) -> usize {
+    let hooks = HOOKS.read().unwrap().clone();
+    match hooks {
+        Some(hooks) if n > 1 => {
+            let c = (hooks.choice)(id, n);
+            assert!(c < n, "verif choice hook returned {c} for {n} alternatives");
+            c
+        }
+        _ => 0,
+    }
+}
+
+/// Reorders `new` (the in-flight indices appended by one parallel scan) into the `k`-th
+/// permutation chosen by the harness. With more than one pool thread every order is reachable.
+pub(crate) fn permute_in_flight(new: &mut [u32]) {
+    let n = new.len();
+    if n < 2 || n > 4 {
+        return;
+    }
+    let mut k = choice("worker:in_flight_order", (1..=n).product());
+    // factorial number system
+    let mut rest: Vec<u32> = new.to_vec();
+    for (i, slot) in new.iter_mut().enumerate() {
+        let f: usize = (1..=(n - 1 - i)).product();
+        *slot = rest.remove(k / f);
+        k %= f;
+    }
+}
+
+impl<T: Sync + Send + 'static> Nucleo<T> {
+    /// Returns a probe that tells whether the worker mutex is currently held (by a background
+    /// run or by a tick). Used by a controlled scheduler as enabling predicate of the blocking
+    /// lock acquisitions.
+    pub fn verif_worker_locked_probe(&self) -> Arc<dyn Fn() -> bool + Send + Sync> {
+        let worker = self.worker.clone();
+        Arc::new(move || worker.is_locked())
+    }
+}
+
+/// Public facade over the crate-private lock-free vector.
+pub struct VerifVec<T>(boxcar::Vec<T>);
+
+impl<T> VerifVec<T> {
+    pub fn with_capacity(capacity: u32, columns: u32) -> Self {
+        VerifVec(boxcar::Vec::with_capacity(capacity, columns))
+    }
+    pub fn columns(&self) -> u32 {
+        self.0.columns()
+    }
+    pub fn count(&self) -> u32 {
+        self.0.count()
+    }
+    pub fn push(&self, value: T, fill_columns: impl FnOnce(&T, &mut [Utf32String])) -> u32 {
+        self.0.push(value, fill_columns)
+    }
+    pub fn extend<I>(&self, values: I, fill_columns: impl Fn(&T, &mut [Utf32String]))
+    where
+        I: IntoIterator<Item = T> + ExactSizeIterator,
+    {
+        self.0.extend(values, fill_columns)
+    }
+    pub fn get(&self, index: u32) -> Option<Item<'_, T>> {
+        self.0.get(index)
+    }
+    /// # Safety
+    /// see `boxcar::Vec::get_unchecked`
+    pub unsafe fn get_unchecked(&self, index: u32) -> Item<'_, T> {
+        self.0.get_unchecked(index)
+    }
+    /// The sequential snapshot iterator the worker uses: `(index, item-if-published)` for
+    /// `start..count()` as of the call.
+    pub fn snapshot(&self, start: u32) -> impl Iterator<Item = (u32, Option<Item<'_, T>>)> + '_ {
+        unsafe { self.0.snapshot(start) }
+    }
+}
+
+/// The crate-private cancellable parallel quicksort. Must be called on a rayon pool thread
+/// (`pool.install`) if a particular pool is to be used.
+pub fn verif_par_quicksort<T, F>(v: &mut [T], is_less: F, canceled: &AtomicBool) -> bool
+where
+    T: Send,
+    F: Fn(&T, &T) -> bool + Sync,
+{
+    crate::par_sort::par_quicksort(v, is_less, canceled)
+}
